@@ -324,12 +324,13 @@ func c17DirVariant(src *choice.Src, res *core.Result) {
 		return
 	}
 	sort.Slice(files, func(i, j int) bool { return walkLess(files[i].path, files[j].path) })
-	root, err := os.MkdirTemp(scratchBase(), "zipsim-c17-")
+	root, err := mkScratch("d")
 	if err != nil {
 		core.SetHarnessError("c17: " + err.Error())
 		return
 	}
 	defer os.RemoveAll(root)
+	res.Scrub(root)
 	dir := filepath.Join(root, "src")
 	for _, f := range files {
 		dst := filepath.Join(dir, filepath.FromSlash(f.path))
